@@ -69,8 +69,16 @@ Fixpoint fired_ok (limit : Z) (starts fired : list Z) : bool :=
       | _ => fired_ok limit starts fired'
       end
   end.
+(* C02 on the observation alone: the two branches are ONE execution and draw on one retry budget -- the function is entered at
+   most once per branch plus once per retry the policy allows (evaluated on every scenario, compared or not) *)
+Definition budget_ok (c : case) : bool :=
+  if 0 <=? r_max_retries (c_rcfg c)
+  then Z.of_nat (length (c_starts_p c) + length (c_starts_h c)) <=? 2 + r_max_retries (c_rcfg c)
+  else true.
+
 Definition checker (c : case) : bool :=
-  skipped c ||
+  budget_ok c &&
+  (skipped c ||
   fired_ok (c_limit c) (c_starts_p c) (c_fired_p c) && fired_ok (c_limit c) (c_starts_h c) (c_fired_h c)
   && (Z.of_nat (length (c_fired_p c)) <=? Z.of_nat (length (c_starts_p c)))
   && (Z.of_nat (length (c_fired_h c)) <=? Z.of_nat (length (c_starts_h c)))
@@ -78,7 +86,7 @@ Definition checker (c : case) : bool :=
   (* the limit applies afresh to each attempt: an exceeded limit is a failed attempt for the retry policy around the Timeout
      (it handles every error), so the caller never sees a bare ErrExceeded -- only ExceededError around it once the retries
      are used up *)
-  && negb (outcome_eqb (c_out c) (0, Some ETimeout)).
+  && negb (outcome_eqb (c_out c) (0, Some ETimeout))).
 
 Definition skipped_ids (cs : list case) : list Z := map c_id (filter skipped cs).
 Definition mismatches (cs : list case) : list Z := map c_id (filter (fun c => negb (agrees c)) cs).
